@@ -7,6 +7,22 @@ static GLOBAL: mlsverif::alloc::CountingAlloc = mlsverif::alloc::CountingAlloc;
 fn main() {
     install_panic_hook();
     let argv: Vec<String> = std::env::args().collect();
+    // diagnosis: `mlsverif PROBE <kind> <hex file>` decodes one input and prints the time it took
+    if argv.get(1).map(|s| s.as_str()) == Some("PROBE") {
+        let kind = argv[2].clone();
+        let bytes = hex::decode(std::fs::read_to_string(&argv[3]).expect("hex file").trim()).expect("hex");
+        for round in 0..3 {
+            let t = std::time::Instant::now();
+            let r = mls_rs::group::verif_hooks::codec_probe(&kind, &bytes);
+            println!(
+                "round {round}: {} bytes as {kind}: {:.3} s, decoded={}",
+                bytes.len(),
+                t.elapsed().as_secs_f64(),
+                r.map(|p| p.decoded).unwrap_or(false)
+            );
+        }
+        return;
+    }
     let mut a = Args {
         prop: argv.get(1).cloned().unwrap_or_default(),
         thorough: false,
